@@ -7,6 +7,7 @@ import (
 	"fmt"
 	"math/rand"
 	"os"
+	"runtime"
 	"strconv"
 	"testing"
 	"testing/synctest"
@@ -26,8 +27,12 @@ func newSim(cfg Cfg, seed int64) *Sim {
 func (s *Sim) boot() {
 	s.epoch = time.Now()
 	s.conn = newFakeConn(s)
-	for range s.cfg.Xid {
+	for i := range s.cfg.Xid {
 		ctx, cancel := context.WithCancel(context.Background())
+		if i < len(s.cfg.CtxDeadline) && s.cfg.CtxDeadline[i] > 0 {
+			// the caller's context ends by its own deadline (context.WithTimeout style)
+			ctx, cancel = context.WithDeadline(context.Background(), time.Now().Add(time.Duration(s.cfg.CtxDeadline[i])*unit))
+		}
 		s.ctxs = append(s.ctxs, ctx)
 		s.cancels = append(s.cancels, cancel)
 	}
@@ -172,6 +177,72 @@ func (s *Sim) randomRun(ndgram int, urgent bool, wantClose, wantCtx bool) {
 	}
 }
 
+// freeRun: all callers are released from a barrier at the same virtual instant and run truly in
+// parallel (no gates); no datagrams arrive, so every interaction between callers goes through the
+// pending-map critical sections, whose hook records are ordered by the mutex itself. Virtual time
+// then advances (urgent by construction) and the retries race again.
+func (s *Sim) freeRun() {
+	s.free = true
+	n := len(s.cfg.Xid)
+	s.ready.Add(n)
+	for c := 1; c <= n; c++ {
+		role := "c" + strconv.Itoa(c)
+		s.started[c-1] = true
+		s.emit("Start", "c", c)
+		xid := s.cfg.Xid[c-1]
+		ctx := s.ctxs[c-1]
+		go func() {
+			s.mu.Lock()
+			s.roles[goid()] = role
+			s.mu.Unlock()
+			call := s.api.Prepare(ctx, xid, func(id int, isNil bool) bool {
+				s.record(role, "Match", id, false)
+				return false
+			}, false, func(b []byte) {
+				s.mu.Lock()
+				s.want[role] = b
+				s.mu.Unlock()
+			})
+			s.ready.Done()
+			for !s.goFlag.Load() { // spin barrier: all callers enter SendAndRead at the same moment
+				runtime.Gosched()
+			}
+			id, isNil, err := call()
+			res := "msg"
+			switch {
+			case err != nil:
+				res = s.api.Classify(err)
+				id = 0
+			case isNil:
+				res = "nil"
+				id = 0
+			}
+			s.record(role, "Return", res, id)
+		}()
+	}
+	s.ready.Wait()
+	s.goFlag.Store(true)
+	s.wait("")
+	budget := 4
+	if s.cfg.Tries > 0 {
+		budget += s.cfg.T * (1 << uint(s.cfg.Tries))
+	}
+	for k := 0; k < budget && !s.allReturned(); k++ {
+		s.tick()
+	}
+	if !s.allReturned() {
+		s.emit("Stuck")
+		s.abort()
+		return
+	}
+	s.closeStart()
+	s.wait("closer")
+	for k := 0; k < 3 && s.closeState != "returned"; k++ {
+		s.wait("")
+	}
+	s.emit("End")
+}
+
 type schedule struct {
 	Cfg   Cfg    `json:"cfg"`
 	Steps []step `json:"steps"`
@@ -210,7 +281,9 @@ func TestSim(t *testing.T) {
 			s := newSim(cfg, seed*1000003+int64(myid))
 			s.boot()
 			body(s)
-			if s.crashed == "" {
+			if s.free {
+				// freeRun drives itself to the end
+			} else if s.crashed == "" {
 				s.finish()
 			} else {
 				s.abort()
@@ -263,6 +336,11 @@ func TestSim(t *testing.T) {
 		for c := 0; c < ncall; c++ {
 			cfg.Xid = append(cfg.Xid, []int{7, 7, 8}[rng.Intn(3)])
 		}
+		if rng.Intn(3) == 0 {
+			for c := 0; c < ncall; c++ {
+				cfg.CtxDeadline = append(cfg.CtxDeadline, []int{0, 1, 2, 3, 5, 8}[rng.Intn(6)])
+			}
+		}
 		urgent := mode == "c11" || i%3 == 0
 		cfg.Urgent = urgent
 		cfg.Mode = "random"
@@ -275,6 +353,16 @@ func TestSim(t *testing.T) {
 		}
 		runOne(cfg, "random", func(s *Sim) { s.randomRun(nd, urgent, rng.Intn(3) == 0, rng.Intn(2) == 0) })
 		stats["random_runs"]++
+	}
+	// (3) free-running races on the registration critical section
+	for i := 0; i < envInt("VH_FREE", 0); i++ {
+		ncall := 2 + rng.Intn(7)
+		cfg := Cfg{T: 1 + rng.Intn(3), Tries: 1 + rng.Intn(3), BufCap: 5, V4: i%2 == 0, Timed: true, Urgent: true, Mode: "free"}
+		for c := 0; c < ncall; c++ {
+			cfg.Xid = append(cfg.Xid, []int{7, 7, 7, 8}[rng.Intn(4)])
+		}
+		runOne(cfg, "free", func(s *Sim) { s.freeRun() })
+		stats["free_runs"]++
 	}
 	sb, _ := json.Marshal(stats)
 	os.WriteFile(outPath+".stats", sb, 0o644)
